@@ -36,6 +36,16 @@ def consume_fail(b):
     return [{'a': 'ConsumeFail', 'b': b}]
 
 
+def unlink(b):
+    """del root['b<n>']"""
+    return [{'a': 'Unlink', 'b': b}]
+
+
+def relink(b):
+    """root['b<n>'] = the Blob object c1 still holds"""
+    return [{'a': 'Relink', 'b': b}]
+
+
 def open_write(b, x='a'):
     """blob.open('w'), write, and the handle stays open"""
     return [{'a': 'OpenWrite', 'b': b, 'x': x}]
@@ -157,7 +167,7 @@ _NODE = re.compile(r'^(-?\d+) \[label="((?:[^"\\]|\\.)*)"(?:,tooltip="(?:[^"\\]|
 _EDGE = re.compile(r'^(-?\d+) -> (-?\d+) \[label="([^"]*)"')
 _ARGS = {'CreateBlob': ('b', 'c'), 'Rewrite': ('b', 'x'), 'Append': ('b', 'x'), 'ConsumeFile': ('b', 'x'), 'ConsumeFail': ('b',),
          'ModifyP': ('v',), 'Rollback': ('k',), 'OtherCommit': ('o', 'x'), 'UBegin': ('t',), 'Pack': ('T',),
-         'Wrong': ('m',), 'PackDuring': ('T',), 'OpenWrite': ('b', 'x'), 'OpenRead': ('b',), 'OtherAbort': ('b', 'x'), 'OtherFinish': ('b', 'x')}
+         'Wrong': ('m',), 'PackDuring': ('T',), 'OpenWrite': ('b', 'x'), 'OpenRead': ('b',), 'Unlink': ('b',), 'Relink': ('b',), 'OtherAbort': ('b', 'x'), 'OtherFinish': ('b', 'x')}
 
 
 def evaluate(scripts, c, workdir, timeout=600, workers=1):
